@@ -83,6 +83,8 @@ impl Monitor for C08 {
             ("damage_aimed_at_len", tier.pick(3_000, 100_000)),
             ("damage_aimed_at_type", tier.pick(3_000, 100_000)),
             ("damage_aimed_at_crc", tier.pick(3_000, 100_000)),
+            ("frames_retyped_as_another_valid_type", tier.pick(3_000, 100_000)),
+            ("images_with_a_frame_starting_at_a_forged_entry", tier.pick(100, 3_000)),
         ]
     }
     fn rule(&self) -> String {
@@ -98,7 +100,7 @@ impl Monitor for C08 {
         quiet_panics();
         let parts = ctx.case_seed(case);
         let mut rng = Rng::from_parts(&parts);
-        let profile = *rng.pick(&[Profile::Mixed, Profile::Mixed, Profile::Gc, Profile::Gc, Profile::Dense, Profile::Delete, Profile::Delete, Profile::BigName, Profile::Idle, Profile::Huge, Profile::Align]);
+        let profile = *rng.pick(&[Profile::Mixed, Profile::Mixed, Profile::Gc, Profile::Gc, Profile::Dense, Profile::Delete, Profile::Delete, Profile::BigName, Profile::Idle, Profile::Huge, Profile::Align, Profile::Align, Profile::Align]);
         let nq = rng.usize(1, 4);
         let nops = rng.usize(8, 50);
         let live_dir = ctx.scratch.sub("c08-live");
@@ -126,6 +128,12 @@ impl Monitor for C08 {
         let frames = all_frames(&img);
         acc.count(&format!("histories_profile_{}", profile.name()));
         acc.add("frames_in_images", frames.len() as u64);
+        // coverage: does some continuation frame of this image start exactly at a forged entry?
+        let fe = crate::ops::forged_entry();
+        let forged_starts = frames.iter().filter(|(n, f)| f.ftype >= 3 && f.len >= fe.len() && img.files[n][f.payload_off()..f.payload_off() + fe.len()] == fe[..]).count();
+        if forged_starts > 0 {
+            acc.count("images_with_a_frame_starting_at_a_forged_entry");
+        }
         let dir = ctx.scratch.sub("c08-rec");
         let rounds = ctx.tier.pick(200, 500);
         for round in 0..rounds {
@@ -141,6 +149,9 @@ impl Monitor for C08 {
                 if let Some(d) = inplace_damage(&mut dam, &frames, &mut rng) {
                     if let Some(a) = d.get("aimed_at").and_then(|x| x.as_str()) {
                         acc.count(&format!("damage_aimed_at_{}", a));
+                        if d.get("mode").and_then(|x| x.as_str()).map(|m| m.starts_with("retyped")).unwrap_or(false) {
+                            acc.count("frames_retyped_as_another_valid_type");
+                        }
                     } else if let Some(k) = d.get("kind").and_then(|x| x.as_str()) {
                         acc.count(&format!("damage_kind_{}", k));
                     }
